@@ -25,12 +25,12 @@ TIERS = {
     'thorough': {'workers': 16, 'cases': 9000, 'timeout': 3000},
 }
 KINDS = ['function', 'lambda', 'builtin', 'callable-instance', 'partial', 'cls-init', 'cls-new', 'cls-both', 'cls-neither', 'cls-meta', 'cls-slots',
-         'cls-namedtuple', 'cls-typing-namedtuple', 'cls-abc', 'cls-methods']
+         'cls-namedtuple', 'cls-typing-namedtuple', 'cls-abc', 'cls-methods', 'cls-final', 'cls-meta-kwargs']
 REQUIRED_BUCKETS = (['kind:' + k for k in KINDS] + ['api:configurable', 'api:register', 'api:external', 'form:decorator', 'form:call', 'override:name',
                     'override:module', 'override:dotted-name', 'path:returned', 'path:object', 'path:selector', 'path:scoped-selector', 'path:reference',
                     'path:scoped-reference', 'pickle:roundtrip', 'direct-call:no-injection', 'reject:invalid-name', 'reject:invalid-module',
                     'reject:different-object-same-name', 'reject:unknown-in-list', 'reject:both-lists', 'interactive:context-manager',
-                    'interactive:enter-exit', 'interactive:exit-by-exception', 'type-identity'])
+                    'interactive:enter-exit', 'interactive:exit-by-exception', 'type-identity', 'reject:class-with-registered-method'])
 ORACLE_COUNTERS = ['oracle_evals', 'registrations', 'rejections_checked']
 _n = itertools.count(1)
 _S = {}
@@ -90,6 +90,15 @@ def make_original(kind, name):
   elif kind == 'cls-abc':
     src = ('class %sBase(abc.ABC):\n  @abc.abstractmethod\n  def go(self):\n    pass\n'
            'class %s(%sBase):\n  """doc of %s"""\n  def __init__(self, x=0):\n    self.x = x\n  def go(self):\n    return self.x\n') % (name, name, name, name)
+    exec(src, g)
+    return g[name], 'x', lambda r: r.x, True, False
+  elif kind == 'cls-final':
+    src = ('class %s:\n  \"\"\"doc of %s\"\"\"\n  def __init__(self, x=0):\n    self.x = x\n'
+           '  def __init_subclass__(cls, **kw):\n    raise TypeError("this class must not be subclassed")\n')
+  elif kind == 'cls-meta-kwargs':
+    src = ('class %sMeta(type):\n  def __new__(mcs, name, bases, ns, *, flavour):\n    return super().__new__(mcs, name, bases, ns)\n'
+           '  def __init__(cls, name, bases, ns, *, flavour):\n    super().__init__(name, bases, ns)\n'
+           'class %s(metaclass=%sMeta, flavour="x"):\n  \"\"\"doc of %s\"\"\"\n  def __init__(self, x=0):\n    self.x = x\n') % (name, name, name, name)
     exec(src, g)
     return g[name], 'x', lambda r: r.x, True, False
   elif kind == 'cls-methods':
@@ -185,7 +194,23 @@ def run_case(ctx, case):
   except (ValueError, TypeError):
     pass
   ctx.count('registrations')
-  ret = do_register(gin, api, case['form'], orig, name, module, explicit)
+  if kind in ('cls-final', 'cls-meta-kwargs') and api in ('register', 'external'):
+    # a class that cannot be subclassed dynamically: registration may be refused, but must never fall back to altering the class
+    try:
+      ret = do_register(gin, api, case['form'], orig, name, module, explicit)
+    except (TypeError, ValueError):
+      ctx.bucket('unsubclassable:registration-refused')
+      ctx.check(snap_equal(before, snapshot(orig, is_class)), 'registration-altered-original', 'refused registration of %s altered the class' % kind)
+      ctx.check(extract(orig()) == 0, 'direct-call-received-injected-value', 'direct construction after refused registration')
+      try:
+        gin.get_configurable(orig)
+        ctx.check(False, 'rejected-registration-left-inverse-entry', 'refused registration left %s known to the registry' % kind)
+      except ValueError:
+        ctx.count('oracle_evals')
+      ctx.fp(kind, api, 'refused')
+      return
+  else:
+    ret = do_register(gin, api, case['form'], orig, name, module, explicit)
   ctx.fp(kind, api, case['form'], case['name_override'], case['module_override'], tuple(sorted(case['paths'])), case['reject'], case['interactive'])
   ctx.sample({'kind': kind, 'api': api, 'registered_as': full, 'paths': case['paths']}, cap=4)
 
@@ -227,6 +252,8 @@ def run_case(ctx, case):
       direct = extract(call(orig))
       ctx.check(direct == (3 if kind == 'builtin' else 0), 'direct-call-received-injected-value', 'direct call of the original %s saw %r' % (kind, direct))
     for path in case['paths']:
+      if kind in ('cls-final', 'cls-meta-kwargs') and path in ('scoped-selector', 'scoped-reference'):
+        continue  # a scoped version needs a dynamic subclass, which these shapes forbid (outside the stated shapes)
       ctx.bucket('path:' + path)
       want = 41
       if path == 'returned':
@@ -300,6 +327,18 @@ def run_case(ctx, case):
       tries = [lambda: gin.register(nm_, module=mod_)(other), lambda: gin.external_configurable(other, name=nm_, module=mod_)]
     elif rej == 'unknown-in-list':
       tries = [lambda: gin.register('ul' + base, module='c13', allowlist=['nope'])(other), lambda: gin.external_configurable(other, name='ul' + base, module='c13', denylist=['x', 'nope'])]
+      # a class with a Gin-registered method: a refused class registration must not have renamed the method in the registry
+      mcls = make_original('cls-methods', 'RM' + base)[0]
+      msel = 'vfc13mod.meth_RM' + base
+      ctx.check(gin.config._REGISTRY.get(msel) is not None, 'harness', 'method not registered under %s' % msel)
+      try:
+        gin.register('rm' + base, module='c13', allowlist=['nope'])(mcls)
+        ctx.check(False, 'bad-registration-accepted', 'class registration with an unknown allowlist entry succeeded')
+      except (ValueError, TypeError):
+        ctx.count('oracle_evals')
+      ctx.bucket('reject:class-with-registered-method')
+      ctx.check(gin.config._REGISTRY.get(msel) is not None and gin.config._REGISTRY.get('c13.rm%s.meth_RM%s' % (base, base)) is None,
+                'rejected-registration-changed-registry', 'a refused class registration renamed its registered method: %s gone' % msel)
     elif rej == 'both-lists':
       tries = [lambda: gin.register('bl' + base, module='c13', allowlist=['x'], denylist=['x'])(other)]
     for t in tries:
